@@ -1,5 +1,6 @@
 import Txtpp.Lemmas.MachineFacts
 import Txtpp.Model.Pp
+import Txtpp.Lemmas.WriteEscape
 /-!
 # Property C16 — ordinary text passes through unchanged and write output is inert
 -/
@@ -47,6 +48,20 @@ theorem directive_output_inert {D σ : Type} (S : Sem D σ) (s s' : σ) (d : D) 
     eval S s (.dir d atEof :: bs) = (eval S s' bs).map (fun r => (r.1, ⟨c, atEof⟩ :: r.2)) := by
   simp [eval, h]
 
+/-- Any sequence of lines (no leading blank on the first, no trailing blanks, no line terminators
+inside) is reproduced exactly by escaping it with `write`: the source `-TXTPP#write L0`, `-L1`, …
+yields the lines joined by the source's line ending, plus the final one iff the option is on —
+whatever directive lines, look-alikes or tag names the text contains (it is never re-read as a
+directive and never subject to tag substitution). -/
+theorem write_escape_roundtrip {W : Type} (Wd : World W) (le : List Char) (trailing : Bool) (w : W)
+    (L0 : List Char) (Ls : List (List Char))
+    (h0 : trim L0 = L0) (hLs : ∀ l ∈ Ls, trimEnd l = l) (hclean : ∀ l ∈ L0 :: Ls, Clean l) :
+    ppPass Wd .build le false trailing w (escapeLines L0 Ls) true =
+      .ok (joinWith le (L0 :: Ls) ++ (if trailing then le else [])) w :=
+  Txt.write_escape_roundtrip Wd le trailing w L0 Ls h0 hLs hclean
+
 example : detectFrom ['T', 'X', 'T', 'P', 'P', '#', 'r', 'u', 'n', 'x'] = none := by decide
+-- the hypotheses are satisfiable by a text that itself is a directive line
+example : trim ['-', 'T', 'X', 'T', 'P', 'P', '#', 'r', 'u', 'n', ' ', 'x'] = ['-', 'T', 'X', 'T', 'P', 'P', '#', 'r', 'u', 'n', ' ', 'x'] := by decide
 
 end C16
